@@ -62,6 +62,11 @@ Qed.
 Lemma view_app_snd im a b : snd (view (view im a) b) = snd (view im (a ++ b)).
 Proof. unfold view. cbn [fst snd]. symmetry. apply last_commit_app. Qed.
 
+Lemma view_compose_lemma im a b pg :
+  fst (view (view im a) b) pg = fst (view im (a ++ b)) pg /\
+  snd (view (view im a) b) = snd (view im (a ++ b)).
+Proof. split; [apply view_app_fst|apply view_app_snd]. Qed.
+
 (** * Checkpointing (backfill) does not change the view *)
 
 (** the database file after the first [j] frames have been copied into it *)
